@@ -280,6 +280,20 @@ func cmdCheck(args []string) int {
 		fmt.Println("workdir:", workdir)
 	}
 	solveAll(workdir, frs, pick, *timeout, *par)
+	// second chance with a three times longer timeout for whatever is still undecided (solver run-time varies with
+	// load; an undecided obligation must not become an alarm because the machine was busy)
+	retry := func(o *Obligation) bool { return pick(o) && o.Expect == "unsat" && o.Status == "undecided" }
+	nretry := 0
+	for _, fr := range frs {
+		for _, o := range fr.Obligations {
+			if retry(o) {
+				nretry++
+			}
+		}
+	}
+	if nretry > 0 && nretry <= 12 {
+		solveAll(workdir, frs, retry, *timeout*3, 3)
+	}
 
 	known := loadKnown(filepath.Join(*verif, "known_findings.txt"))
 	isKnown := func(o *Obligation) *knownFinding {
